@@ -15,7 +15,7 @@ use truc::record::type_resolver::HostTypeResolver;
 use vtypes::Rng;
 
 use crate::hist::{Strat, STRATS};
-use crate::monitors::{config_for, FRAGSETS};
+use crate::monitors::{config_for_alt, FRAGSETS};
 use crate::sut::id_of;
 use crate::Args;
 
@@ -482,6 +482,7 @@ pub fn build_spec(spec: &GSpec) -> Result<Built, String> {
     let mut b: Builder = NativeRecordDefinitionBuilder::new(HostTypeResolver);
     let mut issued: Vec<DatumId> = Vec::new();
     let mut pal_of = BTreeMap::new();
+    let mut closes = 0usize;
     for r in &spec.reqs {
         match r {
             GReq::Add { pal, uninit, name } => {
@@ -505,11 +506,13 @@ pub fn build_spec(spec: &GSpec) -> Result<Built, String> {
             GReq::Remove { k } => b.remove_datum(issued[*k])?,
             GReq::Close { strat } => {
                 match strat {
+                    Strat::Simple if closes % 2 == 1 => b.close_record_variant(),
                     Strat::Simple => b.close_record_variant_with(nvariant::simple),
                     Strat::Basic => b.close_record_variant_with(nvariant::basic),
                     Strat::Append => b.close_record_variant_with(nvariant::append_data),
                     Strat::AppendRev => b.close_record_variant_with(nvariant::append_data_reverse),
                 };
+                closes += 1;
             }
         }
     }
@@ -888,7 +891,7 @@ pub fn mode(args: &Args) {
                 continue;
             }
         };
-        let text = match std::panic::catch_unwind(|| generate(&built.def, &config_for(spec.fragset))) {
+        let text = match std::panic::catch_unwind(|| generate(&built.def, &config_for_alt(spec.fragset, k % 2 == 1))) {
             Ok(t) => t,
             Err(_) => {
                 manifest.push(serde_json::json!({"module": format!("m{}", k), "label": spec.label, "history": spec.text(), "status": "generate panicked"}));
@@ -941,7 +944,7 @@ fn mode_all_fragsets(specs: &[GSpec], seed: u64, dir: &std::path::Path) {
     let mut main = String::from("// generated by `layoutmon emit --all-fragsets`\n#![allow(clippy::all)]\n#[macro_use]\nextern crate static_assertions;\n");
     let mut k = 0;
     let mut emitted = 0;
-    for spec in specs {
+    for (si, spec) in specs.iter().enumerate() {
         let serde_ok = spec.reqs.iter().all(|r| match r {
             GReq::Add { pal, .. } => PALETTE[*pal].serde,
             _ => true,
@@ -951,8 +954,9 @@ fn mode_all_fragsets(specs: &[GSpec], seed: u64, dir: &std::path::Path) {
                 continue;
             }
             let name = format!("m{}", k);
+            let alt = si % 2 == 1;
             k += 1;
-            let text = std::panic::catch_unwind(|| build_spec(spec).map(|b| generate(&b.def, &config_for(fragset))));
+            let text = std::panic::catch_unwind(|| build_spec(spec).map(|b| generate(&b.def, &config_for_alt(fragset, alt))));
             match text {
                 Ok(Ok(text)) => {
                     write_if_changed(&dir.join("src").join(format!("{}.rs", name)), &text);
